@@ -60,7 +60,7 @@ def check_equation_array_properties(equation, particle_arrays):
         """
         props = set(list(array.properties.keys()) +
                     list(array.constants.keys()))
-        if not eq_props < props:
+        if not eq_props <= props:
             errors[array.name].update(eq_props - props)
 
     errors = defaultdict(set)
